@@ -9,6 +9,7 @@ import json
 from dataclasses import dataclass
 import traceback
 import importlib.util
+from contextlib import contextmanager
 from nada_dsl.compiler_frontend import nada_compile
 from nada_dsl.errors import MissingEntryPointError, MissingProgramArgumentError
 from nada_dsl.timer import add_timer, timer
@@ -19,6 +20,28 @@ class CompilerOutput:
     """Compiler Output"""
 
     mir: str
+
+
+# Name under which a program loaded from a file is registered while it runs. It is not derived
+# from the file name: a program stored as `json.py` must not become the `json` module.
+_PROGRAM_MODULE = "__nada_program__"
+
+
+@contextmanager
+def _registered(name: str, module):
+    """While a program runs it can be found in `sys.modules` under its module name (dataclasses
+    and typing look up the module of a class there); whatever was registered under that name
+    before is put back afterwards, so one compilation leaves nothing behind for the next."""
+    missing = object()
+    previous = sys.modules.get(name, missing)
+    sys.modules[name] = module
+    try:
+        yield
+    finally:
+        if previous is missing:
+            sys.modules.pop(name, None)
+        else:
+            sys.modules[name] = previous
 
 
 @add_timer(timer_name="nada_dsl.compile.compile")
@@ -39,23 +62,24 @@ def compile_script(script_path: str) -> CompilerOutput:
     # Load the program from the given path. Importing it by name would return whatever module
     # of that name is already loaded or found first on sys.path (a standard-library module, a
     # program compiled earlier from another directory) and cannot handle dotted file names.
-    spec = importlib.util.spec_from_file_location(script_name, script_path)
+    spec = importlib.util.spec_from_file_location(_PROGRAM_MODULE, script_path)
     if spec is None or spec.loader is None:
         raise ImportError(f"cannot load program {script_path}")
     script = importlib.util.module_from_spec(spec)
-    timer.start("nada_dsl.compile.compile.__import__")
-    try:
-        spec.loader.exec_module(script)
-    finally:
-        timer.stop("nada_dsl.compile.compile.__import__")
+    with _registered(_PROGRAM_MODULE, script):
+        timer.start("nada_dsl.compile.compile.__import__")
+        try:
+            spec.loader.exec_module(script)
+        finally:
+            timer.stop("nada_dsl.compile.compile.__import__")
 
-    try:
-        main = getattr(script, "nada_main")
-    except Exception as exc:
-        raise MissingEntryPointError(
-            "'nada_dsl' entrypoint function is missing in program " + script_name
-        ) from exc
-    outputs = main()
+        try:
+            main = getattr(script, "nada_main")
+        except Exception as exc:
+            raise MissingEntryPointError(
+                "'nada_dsl' entrypoint function is missing in program " + script_name
+            ) from exc
+        outputs = main()
     compile_output = nada_compile(outputs)
     return CompilerOutput(compile_output)
 
@@ -74,11 +98,10 @@ def compile_string(script: str) -> CompilerOutput:
     temp_name = "temp_program"
     spec = importlib.util.spec_from_loader(temp_name, loader=None)
     module = importlib.util.module_from_spec(spec)
-    exec(decoded_program, module.__dict__)  # pylint:disable=W0122
-    sys.modules[temp_name] = module
-    globals()[temp_name] = module
-
-    outputs = module.nada_main()
+    with _registered(temp_name, module):
+        exec(decoded_program, module.__dict__)  # pylint:disable=W0122
+        globals()[temp_name] = module
+        outputs = module.nada_main()
     compile_output = nada_compile(outputs)
     return CompilerOutput(compile_output)
 
